@@ -429,7 +429,12 @@ fn coq_inst(s: &InstrumentState<DefaultInstrumentMarketData>) -> (String, String
     )
 }
 
-fn run_case(insts: &[Inst], evs: &[Ev], rds: &[i64]) -> (String, Vec<String>) {
+fn coq_flags(frame_ok: bool, restores: &[bool], rt_ok: bool) -> String {
+    let idx: Vec<String> = restores.iter().enumerate().filter(|(_, r)| **r).map(|(k, _)| n(k as u128)).collect();
+    format!("(mkFlags {} {} {})", b(frame_ok), list(&idx), b(rt_ok))
+}
+
+fn run_case(insts: &[Inst], evs: &[Ev], rds: &[i64], restores: &[bool]) -> (String, Vec<String>) {
     let mut tags = vec![];
     let (mut engine, exch) = build_engine(insts);
     let descr: Vec<(String, String)> = engine.state.instruments.0.values().map(coq_inst).collect();
@@ -438,8 +443,30 @@ fn run_case(insts: &[Inst], evs: &[Ev], rds: &[i64]) -> (String, Vec<String>) {
     }
     let mut obs = vec![];
     let mut frame_ok = true;
+    let mut rt_ok = true;
     for (k, ev) in evs.iter().enumerate() {
         let rd = rds.get(k).copied().unwrap_or(0);
+        if restores.get(k).copied().unwrap_or(false) {
+            // persist / restore every InstrumentState (position, market data, orders, tear sheet)
+            // through JSON before this event
+            let mut any_open = false;
+            for st in engine.state.instruments.0.values_mut() {
+                any_open |= st.position.current.is_some();
+                let restored = serde_json::to_string(&*st)
+                    .ok()
+                    .and_then(|s| serde_json::from_str::<InstrumentState<DefaultInstrumentMarketData>>(&s).ok());
+                match restored {
+                    Some(r) => {
+                        if r != *st {
+                            rt_ok = false;
+                        }
+                        *st = r;
+                    }
+                    None => rt_ok = false,
+                }
+            }
+            tags.push(if any_open { "restore_with_open_position" } else { "restore_all_flat" }.to_string());
+        }
         if !matches!(ev, Ev::Fill { .. }) {
             tags.push(
                 match rd {
@@ -521,23 +548,27 @@ fn run_case(insts: &[Inst], evs: &[Ev], rds: &[i64]) -> (String, Vec<String>) {
         list(&evs.iter().enumerate().map(|(k, e)| e.coq(rds.get(k).copied().unwrap_or(0))).collect::<Vec<_>>()),
         list(&obs),
         list(&fin),
-        b(frame_ok)
+        coq_flags(frame_ok, restores, rt_ok)
     );
+    if !rt_ok {
+        tags.push("roundtrip_changed".to_string());
+    }
     (coq, tags)
 }
 
-fn emit(em: &mut Emitter, stream: &'static str, insts: &[Inst], evs: &[Ev], rds: &[i64]) {
+fn emit(em: &mut Emitter, stream: &'static str, insts: &[Inst], evs: &[Ev], rds: &[i64], restores: &[bool]) {
     let evs2 = evs.to_vec();
     let insts2 = insts.to_vec();
     let rds2 = rds.to_vec();
-    let r = catch(move || run_case(&insts2, &evs2, &rds2));
+    let restores2 = restores.to_vec();
+    let r = catch(move || run_case(&insts2, &evs2, &rds2, &restores2));
     let (coq, tags) = match r {
         Ok(x) => x,
         Err(msg) => {
             // a panic inside the engine: report an observation list that cannot match
             (
                 format!(
-                    "(CEngine {} {} [] [] false)",
+                    "(CEngine {} {} [] [] (mkFlags false [] false))",
                     list(&insts.iter().map(|i| i.coq()).collect::<Vec<_>>()),
                     list(&evs.iter().enumerate().map(|(k, e)| e.coq(rds.get(k).copied().unwrap_or(0))).collect::<Vec<_>>())
                 ),
@@ -553,6 +584,9 @@ fn emit(em: &mut Emitter, stream: &'static str, insts: &[Inst], evs: &[Ev], rds:
             let mut j = e.to_json();
             if !matches!(e, Ev::Fill { .. }) {
                 j["rd"] = json!(rds.get(k).copied().unwrap_or(0));
+            }
+            if restores.get(k).copied().unwrap_or(false) {
+                j["restore_before"] = json!(true);
             }
             j
         }).collect::<Vec<_>>()}),
@@ -609,6 +643,12 @@ fn gen_insts(r: &mut Rng) -> Vec<Inst> {
 /// MarketEvent.time_received - time_exchange per event: a history has a base latency class (none,
 /// a few ms, larger than the usual gap between events) with per-event jitter, and occasionally a
 /// receive time BEFORE the exchange stamp (clock skew)
+/// persist / restore points: none in a third of the histories, before ~1 event in 5 otherwise
+fn gen_restores(r: &mut Rng, len: usize) -> Vec<bool> {
+    let none = r.chance(1, 3);
+    (0..len).map(|_| !none && r.chance(1, 5)).collect()
+}
+
 fn gen_rds(r: &mut Rng, len: usize) -> Vec<i64> {
     let class = r.below(4);
     (0..len)
@@ -807,7 +847,9 @@ fn table(em: &mut Emitter) {
                     // between the table's events / received before the exchange stamp
                     let lat = [0i64, 7, 10_000, -1_500, 900][(case_no / 2) % 5];
                     let rds: Vec<i64> = evs.iter().map(|_| lat).collect();
-                    emit(em, "table", insts, &evs, &rds);
+                    // persist / restore before every event in one case out of three
+                    let restores: Vec<bool> = evs.iter().map(|_| case_no % 3 == 1).collect();
+                    emit(em, "table", insts, &evs, &rds, &restores);
                 }
             }
         }
@@ -826,19 +868,22 @@ fn main() {
             for _ in 0..n_rand {
                 let (insts, evs) = gen_history(&mut r, max_len, false);
                 let rds = gen_rds(&mut r, evs.len());
-                emit(&mut em, "random", &insts, &evs, &rds);
+                let restores = gen_restores(&mut r, evs.len());
+                emit(&mut em, "random", &insts, &evs, &rds, &restores);
             }
             for _ in 0..n_adv {
                 let (insts, evs) = gen_history(&mut r, max_len, true);
                 let rds = gen_rds(&mut r, evs.len());
-                emit(&mut em, "adversarial", &insts, &evs, &rds);
+                let restores = gen_restores(&mut r, evs.len());
+                emit(&mut em, "adversarial", &insts, &evs, &rds, &restores);
             }
         }
         "exec" => {
             for (inp, stream) in read_inputs(args.input.as_deref().expect("--in")) {
                 let evs: Vec<Ev> = inp["events"].as_array().unwrap().iter().map(Ev::from_json).collect();
                 let rds: Vec<i64> = inp["events"].as_array().unwrap().iter().map(|e| e["rd"].as_i64().unwrap_or(0)).collect();
-                emit(&mut em, stream_static(&stream), &insts_from_json(&inp), &evs, &rds);
+                let restores: Vec<bool> = inp["events"].as_array().unwrap().iter().map(|e| e["restore_before"].as_bool().unwrap_or(false)).collect();
+                emit(&mut em, stream_static(&stream), &insts_from_json(&inp), &evs, &rds, &restores);
             }
         }
         m => panic!("unknown mode {m}"),
